@@ -275,6 +275,37 @@ class AppEnv:
         return self.add_stream(name, files=files, **kw)
 
 
+    def set_stream_defaults(self, directory: str, form: dict) -> dict:
+        """Saves per-stream default options through the real endpoint (POST /stream/<pk>/defaults as the
+        media user, with a harvested CSRF token); returns what the server stored."""
+        from dlv.session import UserSession
+        from dlv.mgmt import Harvest, execute, op_stream_defaults
+        with self.app.app_context():
+            spk = self.models.Stream.get(directory=directory).pk
+        sess = UserSession(self, *self.MEDIA)
+        r = execute(sess, Harvest(sess, spk), op_stream_defaults(spk, form))
+        if r.status_code >= 400:
+            raise RuntimeError(f'saving stream defaults failed: {r.status_code} {r.data[:200]!r}')
+        with self.app.app_context():
+            self.models.db.session.remove()
+            stored = self.models.Stream.get(pk=spk).defaults
+        if not stored:
+            raise RuntimeError(f'stream defaults were not stored: {stored!r}')
+        return dict(stored)
+
+    DEFAULTS_FORM = {'depth': '2400', 'events': 'ping', 'bugs': 'saio',
+                     'playready__la_url': 'https://lic.dflt.example.test/pr?a=1'}
+
+    def add_defaults_stream(self, directory: str = 'dflt', prefix: str = 'dfl') -> dict:
+        """A stream over the bbb fixture files (own file names: media names are global) that carries
+        saved per-stream default options which differ from the global defaults."""
+        files = {}
+        for stem in ('bbb_v7', 'bbb_a1', 'bbb_t1', 'bbb_v7_enc', 'bbb_a1_enc'):
+            files[stem.replace('bbb', prefix)] = FIXTURES / 'bbb' / f'{stem}.mp4'
+        self.add_stream(directory, title='Stream with saved defaults', files=files)
+        return self.set_stream_defaults(directory, self.DEFAULTS_FORM)
+
+
 def parse_utc(text: str) -> _real_datetime.datetime:
     """Independent minimal xs:dateTime reader (used by oracles on manifest attributes)."""
     import re
